@@ -50,7 +50,8 @@ class C11(P.Property):
             ids = []
             for _ in range(rng.randint(1, 4)):
                 c += 1
-                ids.append(hx(c.to_bytes(z, "big")))
+                # CJJ14.PiBas takes identifiers of any size, also of different sizes under one keyword; the other schemes fix the size
+                ids.append(hx(c.to_bytes(rng.randint(1, z) if scheme == "CJJ14.PiBas" else z, "big")))
             db[hx(b"k%d" % i)] = ids
         steps = []
         i = 0
@@ -70,6 +71,11 @@ class C11(P.Property):
                      skew=rng.choice([1.0, 1.0, 0.5, 2.0]), bufsize=rng.choice([8192, 8192, 16]), gc_every=rng.choice([0, 0, 1, 2]),
                      stall_step=(rng.randrange(len(steps)) if rng.random() < 0.12 else None),
                      via_commands=rng.random() < 0.3)  # drive frontend/client/commands.py by service name, one process per command
+        if rng.random() < 0.3:
+            knobs["mtime_gran"] = rng.choice([1, 2])  # a file system with coarse time stamps: writes within one tick carry the same stamp
+        if rng.random() < 0.15 and steps:
+            # the wall clock is stepped before that step (NTP correction, VM resume): time.time() and new file stamps jump, loop time does not
+            knobs["clock_steps"] = {str(rng.randrange(len(steps))): rng.choice([-3600.0, -5.0, -0.5, -3 * 86400.0, 3600.0, 9 * 86400.0])}
         if knobs["via_commands"]:
             knobs.update(stall_step=None)
             for st_ in steps:
@@ -592,7 +598,7 @@ class C11(P.Property):
 
     def simplifications(self, plan):
         k = plan["knobs"]
-        for key, val in (("skew", 1.0), ("bufsize", 8192), ("net", dict(lo=0.01, hi=0.01)), ("gc_every", 0), ("stall_step", None)):
+        for key, val in (("skew", 1.0), ("bufsize", 8192), ("net", dict(lo=0.01, hi=0.01)), ("gc_every", 0), ("stall_step", None), ("mtime_gran", None), ("clock_steps", None)):
             if k.get(key) != val:
                 yield dict(plan, knobs=dict(k, **{key: val}))
         if k["scheme"] != "CJJ14.PiBas" and not k.get("via_commands") and fe.id_size(fe.default_config(k["scheme"])[1]) == 8:
